@@ -54,9 +54,33 @@ Theorem C13_disconnect_cancel_refuted :
     next_step (s_ob (w_sess w)) = None.
 Proof. exact disconnect_cancel_refuted. Qed.
 
+From Minimq Require Import WireInv Wire PingQuiet Healthy Owed Sends.
+
+(* ---- the outbound drain dropped at any await point ----
+   `total w = wire ++ owed`: what is on the wire followed by what the queues still owe it.  A drain that ends in any way
+   but an error — completed, future dropped inside a write or a flush, watchdog — leaves `total` unchanged and the
+   invariants in place; run again to its end it completes the byte stream as if it had never been interrupted. *)
+Theorem C13_dropped_drain_conserves : forall fuel w w' r,
+  WInv (w_sess w) -> PQ w -> flush_outbound fuel w = (w', r) -> not_failed r ->
+  total w' = total w /\ WInv (w_sess w') /\ PQ w' /\ w_now w' = w_now w.
+Proof. exact flush_outbound_total. Qed.
+
+Theorem C13_dropped_drain_resumes : forall f1 f2 w w1 r w2,
+  WInv (w_sess w) -> PQ w -> flush_outbound f1 w = (w1, r) -> not_failed r -> flush_outbound f2 w1 = (w2, ODone tt) ->
+  w_wire w2 = w_wire w ++ owed (s_ob (w_sess w)) /\ next_step (s_ob (w_sess w2)) = None.
+Proof. exact flush_outbound_resumes. Qed.
+
+Theorem C13_dropped_engine_step_conserves : forall st now w w',
+  WInv (w_sess w) -> next_step (s_ob (w_sess w)) = Some st -> perform_outbound_step st now w = (w', OCancel) ->
+  total w' = total w.
+Proof. exact step_cancel_conserves. Qed.
+
 Print Assumptions C13_inbound_bytes_conserved.
 Print Assumptions C13_engine_step_all_or_nothing.
 Print Assumptions C13_publish_not_applied_or_applied.
 Print Assumptions C13_subscribe_not_applied_or_applied.
 Print Assumptions C13_applied_request_is_retained.
 Print Assumptions C13_disconnect_cancel_refuted.
+Print Assumptions C13_dropped_drain_conserves.
+Print Assumptions C13_dropped_drain_resumes.
+Print Assumptions C13_dropped_engine_step_conserves.
